@@ -229,6 +229,12 @@ def l_addr(n, nopts):
         cover("all-failed")
 
 
+def l_redirect(scheme2, port2, path2):
+    """after a redirect, target / port / resource / TLS are those of the Location URL (shared with C10 Q-redirect)"""
+    from .c10 import q_redirect
+    return q_redirect(scheme2, port2, path2)
+
+
 def obligations(tier):
     thorough = tier == "thorough"
     return [
@@ -246,6 +252,9 @@ def obligations(tier):
         Obligation("L-noact", l_noact, [dict(kind=k) for k in ("foreign", "nosep", "nohost", "noslashes", "badport", "ok", "ok-wss")],
                    bounds="4 malformed URL kinds + out-of-range port + 2 valid ones through create_connection on the fake network",
                    must_cover=["noact", "resolved"], step_budget=50000, kernel=["_http.connect", "_http._get_addrinfo_list", "_url.parse_url"]),
+        Obligation("L-redirect", l_redirect, [dict(scheme2=s, port2=p, path2=pa) for s in ("ws", "wss") for p in ("", ":9090") for pa in ("", "/new?y=2")],
+                   bounds="302 redirect to {ws,wss}://b.example[:9090]{'', '/new?y=2'}: dialled address, request target and Host are the Location's",
+                   must_cover=["redirect"], step_budget=100000, kernel=["WebSocket.connect (redirect loop)", "_url.parse_url"]),
         Obligation("L-addr", l_addr, [dict(n=n, nopts=o) for n in (1, 2, 3, 4) for o in ((0, 2) if n < 4 or thorough else (1,))],
                    bounds="address lists of length 1..4, every pattern of {accept, refused, unreachable, other error, timeout}; socket timeout a solver "
                           "real in (0,100); 0..2 user socket options", must_cover=["accepted", "all-failed"], budget_s=1800, step_budget=50000,
